@@ -5,6 +5,7 @@ One pipeline run per path yields clauses tagged with the property they belong to
 ./check Cxx charges only its own clauses (sx.main)."""
 import difflib
 import os
+import random
 import sys
 
 from sx import core
@@ -13,6 +14,8 @@ from sx.core import And, Or, Not, Implies, Iff, Eq, f_of, SymStr
 import vsg.rules  # noqa: F401  (loads every rule module through the hook)
 import vsg.vhdlFile.vhdlFile  # noqa: F401
 from vsg import config, parser, rule_list, severity, token
+from vsg import tokens as tokens_mod
+from vsg import exceptions as vsg_exceptions
 from vsg import vhdlFile as vhdlFile_pkg
 from vsg.token import delimited_comment, pragma as pragma_tok
 from vsg.token_map import process_tokens
@@ -544,7 +547,15 @@ def pipeline(eng, p):
     prop = p["prop"]
     fixture, window, confname = p["fixture"], p.get("window"), p.get("conf", "default")
     lines = read_fixture(fixture)
-    slines = sym_lines(eng, lines, tuple(window) if window else None)
+    if p.get("vary") and window:
+        lines = vary_layout(eng, lines, tuple(window), p["vary"], p.get("vary_seed", 0))
+        try:
+            vhdlFile_pkg.vhdlFile(list(lines))
+        except vsg_exceptions.ClassifyError:
+            return True  # this layout variant is not accepted by VSG: outside the property's quantifier (L05b judges acceptance)
+        slines = lines
+    else:
+        slines = sym_lines(eng, lines, tuple(window) if window else None)
     conf = get_conf2(confname)
     clauses = []
     oFile = vhdlFile_pkg.vhdlFile(slines)
@@ -554,7 +565,8 @@ def pipeline(eng, p):
         clauses.append(("C04:emit_equals_input", Eq(list(emitted), list(slines))))
         clauses.append(("C04:every_token_classified", not any(type(t) is parser.item for t in oFile.lAllObjects)))
         roles = [type(t).__module__ + "." + type(t).__name__ for t in oFile.lAllObjects]
-        clauses.append(("C05:roles_independent_of_case", roles == base_roles(fixture)))
+        if not p.get("vary"):
+            clauses.append(("C05:roles_independent_of_case", roles == base_roles(fixture)))
         if prop == "C05" or not p.get("fix"):
             return clauses
     rl = rule_list.rule_list(oFile, conf.severity_list)
@@ -693,6 +705,14 @@ def pick_params(prop, tier, seed):
         for _ in range(nwin):
             lo = rnd.choice(cl)
             out.append({"prop": prop, "fixture": f, "window": [lo, lo + wlen - 1], "conf": conf})
+    # structural neighbourhoods: layout alternatives at 3 positions of a window (engine-forked), full pipeline on each
+    if prop in ("C01", "C02", "C03", "C07", "C08", "C09", "C10", "C18", "C19"):
+        nv = 4 if tier == "quick" else 70
+        for f in rnd.sample(ALL_FIXTURES, nv):
+            cl = [i for i in code_lines(f) if line_is_relayoutable(read_fixture(f)[i])]
+            if cl:
+                lo = rnd.choice(cl)
+                out.append({"prop": prop, "fixture": f, "window": [lo, lo + 1], "conf": "default", "vary": 3, "vary_seed": rnd.randrange(10**6)})
     return out
 
 
@@ -706,6 +726,12 @@ def l_describe(values, p):
     """the concrete lines of the window chosen by the solver model"""
     lines = read_fixture(p["fixture"])
     out = {"fixture": p["fixture"], "conf": p.get("conf", "default"), "window": p.get("window"), "lines": {}}
+    if p.get("vary") and p.get("window"):
+        eng = core.ConcreteEngine(values)
+        new = vary_layout(eng, lines, tuple(p["window"]), p["vary"], p.get("vary_seed", 0))
+        out["layout_choices"] = {k: v for k, v in values.items() if k.startswith(("gap", "eol", "indent"))}
+        out["lines"] = {i + 1: new[i] for i in range(max(0, p["window"][0] - 1), min(len(new), p["window"][1] + 5))}
+        return out
     if p.get("window"):
         eng = core.ConcreteEngine(values)
         for i, s in enumerate(sym_lines(eng, lines, tuple(p["window"]))):
@@ -912,6 +938,72 @@ def line_is_relayoutable(s):
     if not t or t.startswith("--") or t.startswith("#") or "/*" in s or "*/" in s or "vsg_" in s or "`" in s:
         return False
     return True
+
+
+def vary_layout(eng, lines, window, points, seed):
+    """structural neighbourhood of a fixture: at `points` randomly chosen positions of the window lines (whitespace gaps, line
+    start, line end) the engine forks over layout alternatives. Returns the new list of lines."""
+    rnd = random.Random(seed)
+    cands = []
+    for i in range(window[0], min(window[1], len(lines) - 1) + 1):
+        s_ = lines[i]
+        if not line_is_relayoutable(s_):
+            continue
+        toks = tokens_mod.create(s_)
+        comment_at = next((j for j, t in enumerate(toks) if t.startswith("--")), len(toks))
+        if toks and toks[0].isspace() and comment_at > 1:
+            cands.append((i, "indent", 0))
+        for j in range(1, comment_at - 1):
+            if toks[j] and toks[j].isspace():
+                cands.append((i, "gap", j))
+        if comment_at == len(toks):
+            cands.append((i, "eol", len(toks)))
+    chosen = set(rnd.sample(cands, min(points, len(cands))))
+    out = []
+    n = 0
+    for i, s_ in enumerate(lines):
+        if not any(c[0] == i for c in chosen):
+            out.append(s_)
+            continue
+        toks = tokens_mod.create(s_)
+        cur = ""
+        after = []
+        for j, tk in enumerate(toks):
+            if (i, "indent", j) in chosen:
+                n += 1
+                if eng.choose("indent%d" % n, 2) == 1:
+                    continue
+                cur += tk
+            elif (i, "gap", j) in chosen:
+                n += 1
+                wordy = lambda t: bool(t) and (t[-1].isalnum() or t[-1] in "_\"'") and True
+                can_delete = not (wordy(toks[j - 1]) and (toks[j + 1][:1].isalnum() or toks[j + 1][:1] in "_\"'\\"))
+                c = eng.choose("gap%d" % n, 4 if can_delete else 3)
+                if c == 0:
+                    cur += tk
+                elif c == 1:
+                    out.append(cur)
+                    cur = "      "
+                elif c == 2:
+                    out.append(cur + " -- relayout")
+                    cur = "    "
+                else:
+                    pass  # whitespace deleted: the neighbours stay separate tokens
+            else:
+                cur += tk
+        if (i, "eol", len(toks)) in chosen:
+            n += 1
+            c = eng.choose("eol%d" % n, 4)
+            if c == 1:
+                cur += "  -- trailing"
+            elif c == 2:
+                after = ["  -- own line"]
+            elif c == 3:
+                cur += " -- trailing"
+                after = ["-- own line 1", "    -- own line 2"]
+        out.append(cur)
+        out.extend(after)
+    return out
 
 
 def relayout(eng, p):
